@@ -1,7 +1,7 @@
 //! Crash-isolated execution of a corpus: programs run in worker processes in batches; a batch
 //! whose worker dies or times out is re-run one program at a time to attribute the failure.
 
-use super::run::{run_text_inputs, v_to_cell, Case, CycleObs};
+use super::run::{run_text_full, v_to_cell, Case, CycleObs};
 use crate::fw::Machinery;
 use crate::iso::{self, Outcome, PoolCfg};
 use serde_json::{json, Value};
@@ -33,7 +33,7 @@ pub fn worker_batch(case: &Value) -> Value {
             .iter()
             .map(|c| c.iter().map(|(a, v)| (a.clone(), v_to_cell(a, v))).collect())
             .collect();
-        match run_text_inputs(text, cycles, &inputs) {
+        match run_text_full(text, cycles, &inputs, p["budget_ms"].as_u64()) {
             Err(e) => out.push(json!({"rejected": e})),
             Ok(obs) => out.push(json!({"cycles": obs.iter().map(|o| json!({"outcome": o.outcome, "frames": o.frames, "dump": o.dump})).collect::<Vec<_>>()})),
         }
@@ -75,7 +75,7 @@ pub fn pool(threads: usize, deadline: Option<Instant>, per_case: Duration) -> Po
 /// Runs all cases; `None` = not executed because the deadline passed.
 pub fn run_corpus(threads: usize, cases: &[Case], deadline: Option<Instant>) -> Result<Vec<Option<ProgResult>>, Machinery> {
     let batch = 64usize;
-    let texts: Vec<Value> = cases.iter().map(|c| json!({"text": c.text(), "cycles": c.cycles, "inputs": c.input_writes()})).collect();
+    let texts: Vec<Value> = cases.iter().map(|c| json!({"text": c.text(), "cycles": c.cycles, "inputs": c.input_writes(), "budget_ms": c.prog.budget_ms})).collect();
     let batches: Vec<Value> = texts.chunks(batch).map(|c| json!({"progs": c})).collect();
     let cfg = pool(threads, deadline, Duration::from_secs(120));
     let outs = iso::run_pool(&cfg, &batches).map_err(Machinery)?;
